@@ -120,6 +120,45 @@ def primitiveByID? (id : Nat) : Option Ty :=
     | none => none
   else none
 
+/-! #### well-formed types
+
+  `Ty.wf t`: `t` is a type a `zed.Context` can hold and `DecodeTypeValue` can read back:
+  implemented primitives; records without duplicate field names; unions whose members are in the
+  order `LookupTypeUnion` leaves them in (no member is `CompareTypes`-less than its predecessor);
+  named types with a valid name; and the size limits of the decoder (`MaxRecordFields`, …, and
+  names shorter than 2^63 bytes, the range of `DecodeLength`). -/
+
+def nameOk (n : Name) : Bool := decide (n.length < 2 ^ 63)
+
+/-- no element is `less` than its predecessor -/
+def adjSorted {α} (less : α → α → Bool) : List α → Bool
+  | [] => true
+  | [_] => true
+  | x :: y :: rest => !less y x && adjSorted less (y :: rest)
+
+end Ctx
+
+mutual
+def Ty.wf : Ty → Bool
+  | .prim id => Ctx.primitiveByID? id == some (.prim id)
+  | .record fs => fs.wf && !Ctx.hasDup fs.names && decide (fs.length ≤ maxRecordFields)
+  | .array t => t.wf
+  | .set t => t.wf
+  | .map k v => k.wf && v.wf
+  | .union ts => ts.wf && decide (ts.length ≤ maxUnionTypes) && Ctx.adjSorted tyLess ts.toList
+  | .enum syms => syms.all Ctx.nameOk && decide (syms.length ≤ maxEnumSymbols)
+  | .error t => t.wf
+  | .named n t => Ctx.validTypeName n && Ctx.nameOk n && t.wf
+def Fields.wf : Fields → Bool
+  | .nil => true
+  | .cons n t r => Ctx.nameOk n && t.wf && r.wf
+def Tys.wf : Tys → Bool
+  | .nil => true
+  | .cons t r => t.wf && r.wf
+end
+
+namespace Ctx
+
 /-! #### DecodeTypeValue -/
 
 def decodeSyms : Nat → Bytes → Option (List Name × Bytes)
@@ -133,108 +172,115 @@ def decodeSyms : Nat → Bytes → Option (List Name × Bytes)
       | some (ss, tv) => some (s :: ss, tv)
 
 mutual
-/-- `Context.DecodeTypeValue`; `none` = the `(nil, nil)` result. -/
-def decodeTV : Nat → Ctx → Bytes → Option (Ty × Bytes × Ctx)
-  | 0, _, _ => none
-  | _, _, [] => none
+/-- `Context.DecodeTypeValue`; `none` = the `(nil, nil)` result.  The context is returned in
+    either case: the types entered before a failure stay entered. -/
+def decodeTV : Nat → Ctx → Bytes → Ctx × Option (Ty × Bytes)
+  | 0, c, _ => (c, none)
+  | _, c, [] => (c, none)
   | f+1, c, id :: tv =>
     let id := id.toNat
     if id = tvNameDef then
       match decodeName tv with
-      | none => none
+      | none => (c, none)
       | some (name, tv) =>
         match decodeTV f c tv with
-        | none => none
-        | some (t, tv, c) =>
+        | (c, none) => (c, none)
+        | (c, some (t, tv)) =>
           match c.lookupNamed name t with
-          | (none, _) => none
-          | (some nt, c) => some (nt, tv, c)
+          | (none, c) => (c, none)
+          | (some nt, c) => (c, some (nt, tv))
     else if id = tvNameRef then
       match decodeName tv with
-      | none => none
+      | none => (c, none)
       | some (name, tv) =>
         match c.lookupTypeDef name with
-        | none => none
-        | some t => some (t, tv, c)
+        | none => (c, none)
+        | some t => (c, some (t, tv))
     else if id = tvRecord then
       match decodeLength tv with
-      | none => none
+      | none => (c, none)
       | some (n, tv) =>
-        if n > maxRecordFields then none else
+        if n > maxRecordFields then (c, none) else
         match decodeFields f n c tv with
-        | none => none
-        | some (fs, tv, c) =>
+        | (c, none) => (c, none)
+        | (c, some (fs, tv)) =>
           match c.lookupRecord fs with
-          | (none, _) => none
-          | (some t, c) => some (t, tv, c)
+          | (none, c) => (c, none)
+          | (some t, c) => (c, some (t, tv))
     else if id = tvArray then
       match decodeTV f c tv with
-      | none => none
-      | some (t, tv, c) => let r := c.lookupArray t; some (r.1, tv, r.2)
+      | (c, none) => (c, none)
+      | (c, some (t, tv)) => let r := c.lookupArray t; (r.2, some (r.1, tv))
     else if id = tvSet then
       match decodeTV f c tv with
-      | none => none
-      | some (t, tv, c) => let r := c.lookupSet t; some (r.1, tv, r.2)
+      | (c, none) => (c, none)
+      | (c, some (t, tv)) => let r := c.lookupSet t; (r.2, some (r.1, tv))
     else if id = tvMap then
       match decodeTV f c tv with
-      | none => none
-      | some (k, tv, c) =>
+      | (c, none) => (c, none)
+      | (c, some (k, tv)) =>
         match decodeTV f c tv with
-        | none => none
-        | some (v, tv, c) => let r := c.lookupMap k v; some (r.1, tv, r.2)
+        | (c, none) => (c, none)
+        | (c, some (v, tv)) => let r := c.lookupMap k v; (r.2, some (r.1, tv))
     else if id = tvUnion then
       match decodeLength tv with
-      | none => none
+      | none => (c, none)
       | some (n, tv) =>
-        if n > maxUnionTypes then none else
+        if n > maxUnionTypes then (c, none) else
         -- the Go loop does not check a failed member (it would call CompareTypes on nil and
         -- panic, C11); the model stops with `none`.
         match decodeTys f n c tv with
-        | none => none
-        | some (ts, tv, c) => let r := c.lookupUnion ts; some (r.1, tv, r.2)
+        | (c, none) => (c, none)
+        | (c, some (ts, tv)) => let r := c.lookupUnion ts; (r.2, some (r.1, tv))
     else if id = tvEnum then
       match decodeLength tv with
-      | none => none
+      | none => (c, none)
       | some (n, tv) =>
-        if n > maxEnumSymbols then none else
+        if n > maxEnumSymbols then (c, none) else
         match decodeSyms n tv with
-        | none => none
-        | some (syms, tv) => let r := c.lookupEnum syms; some (r.1, tv, r.2)
+        | none => (c, none)
+        | some (syms, tv) => let r := c.lookupEnum syms; (r.2, some (r.1, tv))
     else if id = tvError then
       match decodeTV f c tv with
-      | none => none
-      | some (t, tv, c) => let r := c.lookupError t; some (r.1, tv, r.2)
+      | (c, none) => (c, none)
+      | (c, some (t, tv)) => let r := c.lookupError t; (r.2, some (r.1, tv))
     else
       match primitiveByID? id with
-      | none => none
-      | some t => some (t, tv, c)
-def decodeFields : Nat → Nat → Ctx → Bytes → Option (List (Name × Ty) × Bytes × Ctx)
-  | _, 0, c, tv => some ([], tv, c)
-  | 0, _+1, _, _ => none
+      | none => (c, none)
+      | some t => (c, some (t, tv))
+def decodeFields : Nat → Nat → Ctx → Bytes → Ctx × Option (List (Name × Ty) × Bytes)
+  | _, 0, c, tv => (c, some ([], tv))
+  | 0, _+1, c, _ => (c, none)
   | f+1, n+1, c, tv =>
     match decodeName tv with
-    | none => none
+    | none => (c, none)
     | some (name, tv) =>
       match decodeTV f c tv with
-      | none => none
-      | some (t, tv, c) =>
+      | (c, none) => (c, none)
+      | (c, some (t, tv)) =>
         match decodeFields f n c tv with
-        | none => none
-        | some (fs, tv, c) => some ((name, t) :: fs, tv, c)
-def decodeTys : Nat → Nat → Ctx → Bytes → Option (List Ty × Bytes × Ctx)
-  | _, 0, c, tv => some ([], tv, c)
-  | 0, _+1, _, _ => none
+        | (c, none) => (c, none)
+        | (c, some (fs, tv)) => (c, some ((name, t) :: fs, tv))
+def decodeTys : Nat → Nat → Ctx → Bytes → Ctx × Option (List Ty × Bytes)
+  | _, 0, c, tv => (c, some ([], tv))
+  | 0, _+1, c, _ => (c, none)
   | f+1, n+1, c, tv =>
     match decodeTV f c tv with
-    | none => none
-    | some (t, tv, c) =>
+    | (c, none) => (c, none)
+    | (c, some (t, tv)) =>
       match decodeTys f n c tv with
-      | none => none
-      | some (ts, tv, c) => some (t :: ts, tv, c)
+      | (c, none) => (c, none)
+      | (c, some (ts, tv)) => (c, some (t :: ts, tv))
 end
 
 /-- fuel that always suffices: every recursive call consumes at least one byte -/
-def decode (c : Ctx) (tv : Bytes) : Option (Ty × Bytes × Ctx) := decodeTV (tv.length + 1) c tv
+def decodeC (c : Ctx) (tv : Bytes) : Ctx × Option (Ty × Bytes) := decodeTV (tv.length + 1) c tv
+
+/-- the successful result with the context after it -/
+def decode (c : Ctx) (tv : Bytes) : Option (Ty × Bytes × Ctx) :=
+  match c.decodeC tv with
+  | (c', some (t, rest)) => some (t, rest, c')
+  | (_, none) => none
 
 /-- `LookupByValue`.  The caller's slice is stored as the type's serialized value (the Go code
     does `c.toValue[typ] = tv` without copying or canonicalising) and as a new `toType` key.
@@ -243,9 +289,9 @@ def lookupByValue (c : Ctx) (tv : Bytes) : Option Ty × Ctx :=
   match c.toType.lookup tv with
   | some t => (some t, c)
   | none =>
-    match c.decode tv with
-    | none => (none, c)
-    | some (t, _, c') => (some t, { c' with toValue := (t, tv) :: c'.toValue, toType := (tv, t) :: c'.toType })
+    match c.decodeC tv with
+    | (c', none) => (none, c')
+    | (c', some (t, _)) => (some t, { c' with toValue := (t, tv) :: c'.toValue, toType := (tv, t) :: c'.toType })
 
 /-- `TranslateType` -/
 def translate (c : Ctx) (ext : Ty) : Option Ty × Ctx := c.lookupByValue (encodeTV ext)
@@ -268,6 +314,99 @@ def idOf (c : Ctx) (t : Ty) : Option Nat :=
 /-- `LookupType(id)` -/
 def lookupType (c : Ctx) (id : Nat) : Option Ty :=
   if id < idTypeComplex then primitiveByID? id else c.byID[id - idTypeComplex]?
+
+/-! #### creation histories
+
+  An operation of a client of the context.  Arguments are primitives or results of earlier
+  operations (`Arg.res k`), as in the harness's histories; `translate` takes a type of some
+  other context.  An operation whose arguments do not resolve, or that exceeds the decoder's
+  size limits (the context does not check them when creating, but a type beyond them cannot be
+  read back), is skipped. -/
+
+inductive Arg where
+  | prim (id : Nat)
+  | res (k : Nat)
+  deriving Repr
+
+inductive Op where
+  | record (fs : List (Name × Arg))
+  | array (a : Arg)
+  | set (a : Arg)
+  | error (a : Arg)
+  | map (k v : Arg)
+  | union (as : List Arg)
+  | enum (syms : List Name)
+  | named (n : Name) (a : Arg)
+  | byValue (tv : Bytes)
+  | translate (ext : Ty)
+  | typeValue (a : Arg)
+  | typeDef (n : Name)
+  deriving Repr
+
+abbrev Env := List (Option Ty)
+
+def argOf (env : Env) : Arg → Option Ty
+  | .prim id => primitiveByID? id
+  | .res k => (env[k]?).join
+
+def argsOf (env : Env) : List Arg → Option (List Ty)
+  | [] => some []
+  | a :: r => match argOf env a, argsOf env r with
+    | some t, some ts => some (t :: ts)
+    | _, _ => none
+
+def fieldsOf (env : Env) : List (Name × Arg) → Option (List (Name × Ty))
+  | [] => some []
+  | (n, a) :: r => match argOf env a, fieldsOf env r with
+    | some t, some fs => some ((n, t) :: fs)
+    | _, _ => none
+
+/-- one operation: the type it returns (if any), the bytes it returns (LookupTypeValue), the
+    context afterwards -/
+def exec (c : Ctx) (env : Env) : Op → Option Ty × Option Bytes × Ctx
+  | .record fs =>
+    match fieldsOf env fs with
+    | some l =>
+      if l.length ≤ maxRecordFields ∧ l.all (fun p => nameOk p.1) then
+        let r := c.lookupRecord l; (r.1, none, r.2)
+      else (none, none, c)
+    | none => (none, none, c)
+  | .array a => match argOf env a with
+    | some t => let r := c.lookupArray t; (some r.1, none, r.2)
+    | none => (none, none, c)
+  | .set a => match argOf env a with
+    | some t => let r := c.lookupSet t; (some r.1, none, r.2)
+    | none => (none, none, c)
+  | .error a => match argOf env a with
+    | some t => let r := c.lookupError t; (some r.1, none, r.2)
+    | none => (none, none, c)
+  | .map k v => match argOf env k, argOf env v with
+    | some kt, some vt => let r := c.lookupMap kt vt; (some r.1, none, r.2)
+    | _, _ => (none, none, c)
+  | .union as => match argsOf env as with
+    | some ts =>
+      if ts.length ≤ maxUnionTypes then let r := c.lookupUnion ts; (some r.1, none, r.2)
+      else (none, none, c)
+    | none => (none, none, c)
+  | .enum syms =>
+    if syms.length ≤ maxEnumSymbols ∧ syms.all nameOk then let r := c.lookupEnum syms; (some r.1, none, r.2)
+    else (none, none, c)
+  | .named n a => match argOf env a with
+    | some t => if nameOk n then let r := c.lookupNamed n t; (r.1, none, r.2) else (none, none, c)
+    | none => (none, none, c)
+  | .byValue tv => let r := c.lookupByValue tv; (r.1, none, r.2)
+  | .translate ext => if ext.wf then let r := c.translate ext; (r.1, none, r.2) else (none, none, c)
+  | .typeValue a => match argOf env a with
+    | some t => let r := c.lookupTypeValue t; (none, r.1, r.2)
+    | none => (none, none, c)
+  | .typeDef n => (c.lookupTypeDef n, none, c)
+
+/-- run a history from a context; the environment collects the results -/
+def runOps : List Op → Ctx → Env → Ctx × Env
+  | [], c, env => (c, env)
+  | op :: rest, c, env =>
+    let r := c.exec env op
+    runOps rest r.2.2 (env ++ [r.1])
 
 end Ctx
 end Zed
